@@ -11,6 +11,7 @@ import (
 	"berty.tech/go-ipfs-log/entry"
 	idp "berty.tech/go-ipfs-log/identityprovider"
 	"berty.tech/go-ipfs-log/iface"
+	"github.com/ipfs/go-cid"
 
 	"verifharness/evid"
 	"verifharness/hx"
@@ -81,12 +82,16 @@ func corrupt(kind string, e iface.IPFSLogEntry, other iface.IPFSLogEntry, rng *r
 	case "otherkey":
 		c.Key = append([]byte(nil), other.GetKey()...)
 	case "payload":
-		c.Payload[rng.Intn(len(c.Payload))] ^= 0x01
+		if len(c.Payload) == 0 {
+			c.Payload = []byte{'x'}
+		} else {
+			c.Payload[rng.Intn(len(c.Payload))] ^= 0x01
+		}
 	case "clock":
 		c.Clock = entry.NewLamportClock(c.Clock.ID, c.Clock.Time+1)
 	case "nextdrop":
 		if len(c.Next) == 0 {
-			c.Payload[0] ^= 0x01
+			c.Payload = append(c.Payload, 'x')
 		} else {
 			c.Next = c.Next[1:]
 		}
@@ -179,6 +184,19 @@ func c06Case(run *evid.Run, i int, j *Journal) {
 		if s.Op == "join" && res.Err != nil {
 			run.Violate("C06/honest-merge-rejected", det("codec", h.Codec), wit(fmt.Sprintf("step %d %s", k, s)), "merge of honestly appended entries failed under codec %s: %v", h.Codec, res.Err)
 			// apply it through a permissive path is impossible; continue with what we have
+		}
+	}
+	// unusual but legal inputs: empty and nil payloads are created and signed like any other
+	if i%3 == 0 {
+		l := x.Logs[rng.Intn(h.Replicas)]
+		for _, p := range [][]byte{{}, nil} {
+			e, err := l.Append(x.W.Ctx, p, nil)
+			if err != nil {
+				run.Violate("C06/append-error", det("codec", h.Codec, "payload", "empty"), wit("append of an empty payload"), "append of an empty payload failed: %v", err)
+			} else {
+				appended = append(appended, e)
+				run.Count("appended_empty_payload", 1)
+			}
 		}
 	}
 	if big {
@@ -337,6 +355,13 @@ func c06Case(run *evid.Run, i int, j *Journal) {
 		if err != nil {
 			panic(err)
 		}
+		// an identically built twin of the destination that never sees this merge
+		var twin *ipfslog.IPFSLog
+		if dstName == "fresh" {
+			twin = mk(nil, nil)
+		} else {
+			twin = mk(dst.GetEntries().Slice(), dst.Heads().Slice())
+		}
 		before := hx.Observe(dst)
 		var headHashes []string
 		for _, hd := range heads {
@@ -379,6 +404,22 @@ func c06Case(run *evid.Run, i int, j *Journal) {
 				run.Violate("C06/valid-rejected", d, wit(desc), "merge of valid authorised candidates failed: %v (%s)", jerr, desc)
 			}
 			run.Count("merges_rejected", 1)
+			// "observably unchanged" includes what the log does next: the next append must be exactly the
+			// entry a twin that never saw the rejected merge appends (same predecessors, same clock)
+			if pol.nth == 0 { // the call-counting policy would diverge between the twins
+				probe := []byte(fmt.Sprintf("probe-%d-%d", i, round))
+				e1, err1 := dst.Append(x.W.Ctx, probe, nil)
+				e2, err2 := twin.Append(x.W.Ctx, probe, nil)
+				run.Count("appends_after_rejected_merge_compared_with_twin", 1)
+				if (err1 == nil) != (err2 == nil) {
+					run.Violate("C06/rejected-merge-changed-behaviour", d, wit(desc), "after a rejected merge the next append returned %v, on a twin that never saw the merge %v (%s)", err1, err2, desc)
+				} else if err1 == nil && (e1.GetClock().GetTime() != e2.GetClock().GetTime() || !bytes.Equal(e1.GetClock().GetID(), e2.GetClock().GetID()) ||
+					!model.EqualAsSets(hx.Cids(e1.GetNext()), hx.Cids(e2.GetNext())) || !model.EqualAsSets(hx.Cids(e1.GetRefs()), hx.Cids(e2.GetRefs()))) {
+					// (compared field-wise: with tied clocks the ORDER of the predecessor list may legitimately differ between the twins)
+					run.Violate("C06/rejected-merge-changed-behaviour", d, wit(desc), "after a rejected merge the next append produced an entry with clock time %d and %d predecessors; a twin that never saw the merge produced clock time %d and %d predecessors (%s)",
+						e1.GetClock().GetTime(), len(e1.GetNext()), e2.GetClock().GetTime(), len(e2.GetNext()), desc)
+				}
+			}
 		} else {
 			run.Count("merges_accepted", 1)
 			for hs, e := range after.Set {
@@ -433,6 +474,62 @@ func c06Case(run *evid.Run, i int, j *Journal) {
 			}
 			run.NonTrivial(fmt.Sprintf("%v/%s/%s/c%d", posClass, pol.name, h.Codec, cb))
 		}
+	}
+
+	// (b') a log restored from storage with a restrictive controller still enforces it
+	for r, l := range x.Logs {
+		if l.Len() == 0 || i%2 != 0 {
+			continue
+		}
+		loader := hx.Loaders[rng.Intn(len(hx.Loaders))]
+		if loader == "hash" && l.Heads().Len() != 1 {
+			loader = "manifest"
+		}
+		if h.Codec == "pb" {
+			break
+		}
+		pol := &policy{name: "deny-payload", denyPay: func(p []byte) bool { return bytes.HasPrefix(p, []byte("DENY")) }}
+		w2 := *x.W
+		lo := w2.LogOpts(w2.LogID)
+		lo.AccessController = pol
+		var restored *ipfslog.IPFSLog
+		var err error
+		j.Log(map[string]any{"case": i, "codec": h.Codec, "phase": "restored-log-policy", "loader": loader})
+		switch loader {
+		case "manifest":
+			var mc cid.Cid
+			if mc, err = l.ToMultihash(x.W.Ctx); err == nil {
+				restored, err = ipfslog.NewFromMultihash(x.W.Ctx, x.W.Store.API(), x.W.Idents[x.Writer[r]], mc, lo, &ipfslog.FetchOptions{})
+			}
+		case "json":
+			restored, err = ipfslog.NewFromJSON(x.W.Ctx, x.W.Store.API(), x.W.Idents[x.Writer[r]], l.ToJSONLog(), lo, &entry.FetchOptions{})
+		case "entries":
+			restored, err = ipfslog.NewFromEntry(x.W.Ctx, x.W.Store.API(), x.W.Idents[x.Writer[r]], l.Heads().Slice(), lo, &entry.FetchOptions{})
+		case "hash":
+			restored, err = ipfslog.NewFromEntryHash(x.W.Ctx, x.W.Store.API(), x.W.Idents[x.Writer[r]], l.Heads().Slice()[0].GetHash(), lo, &ipfslog.FetchOptions{})
+		}
+		if err != nil || restored == nil {
+			run.Violate("C06/restore-error", det("codec", h.Codec, "loader", loader), wit("restore"), "restoring a log through the %s loader failed: %v", loader, err)
+			continue
+		}
+		before := hx.Observe(restored)
+		e, aerr := restored.Append(x.W.Ctx, []byte(fmt.Sprintf("DENY-restored-%d", i)), nil)
+		d := det("codec", h.Codec, "loader", loader)
+		if aerr == nil || e != nil {
+			run.Violate("C06/denied-append-accepted", d, wit("restored log"), "a log restored through the %s loader with a restrictive controller accepted an append the controller denies", loader)
+		} else if df := obsEqual(before, hx.Observe(restored)); df != "" {
+			run.Violate("C06/denied-append-changed", d, wit("restored log"), "denied append on a restored log changed it: %s", df)
+		}
+		// and a merge carrying a denied entry is refused
+		src := x.W.NewLog(0)
+		_, _ = src.Join(l, -1)
+		if _, err := src.Append(x.W.Ctx, []byte(fmt.Sprintf("DENY-merge-%d", i)), nil); err == nil {
+			if _, jerr := restored.Join(src, -1); jerr == nil {
+				run.Violate("C06/denied-admitted", d, wit("restored log"), "a log restored through the %s loader with a restrictive controller merged an entry the controller denies", loader)
+			}
+		}
+		run.Count("restored_logs_with_policy_"+loader, 1)
+		run.NonTrivial("restored/" + loader + "/" + h.Codec)
 	}
 
 	// (d) denied appends
